@@ -418,6 +418,11 @@ func cmdCheck(argv []string) int {
 				if exit == 0 {
 					exit = 3
 				}
+			} else if baseline[name] {
+				// reachable on the unchanged tree, contradictory now: either the change made the code behind it dead, or
+				// the model of the changed code is contradictory - in both cases whatever is claimed behind this point
+				// holds vacuously and nothing is decided
+				undecided = append(undecided, fmt.Sprintf("UNDECIDED property=%s %s was reachable on the unchanged tree and is unreachable now (dead code, or a contradictory model of the changed code): obligations behind it hold vacuously", prop, name))
 			} else {
 				fmt.Printf("VACUITY-NOTE property=%s %s is unreachable on this tree\n", prop, name)
 				nDis++ // counted as decided: the canary is informational outside strict mode
@@ -508,7 +513,8 @@ func cmdCheck(argv []string) int {
 	if os.Getenv("GOCV_WRITE_BASELINE") != "" && exit == 0 && len(rejected) == 0 {
 		var names []string
 		for _, n := range order {
-			if aggs[n].ok && aggs[n].kind != "cover" {
+			if aggs[n].ok {
+				// covers too: a path that is reachable on the unchanged tree and unreachable later is reported
 				names = append(names, n)
 			}
 		}
